@@ -33,6 +33,7 @@ TRUSTED = vlib.TRUSTED_COMMON + [
 HEADER = """From Coq Require Import String List NArith Bool.
 From SeataV Require Import Gen.AtDispatch Proxy.ProxyModel Proxy.ProxyCases.
 Import ListNotations. Open Scope N_scope. Open Scope string_scope.
+Set Printing Depth 1000000.
 """
 ERR = {1: "the AT proxy's journal is not one the routing model allows",
        2: "the bare driver's journal is outside the model's language of database/sql over the driver",
@@ -141,7 +142,7 @@ def run(chk, only=None):
     if ok_cases and cases:
         mism = vlib.eval_mismatches("C16", HEADER, [case_term(c) for c in cases], case_type="pcase", shard=100)
     if not chk.violations:
-        for i in sorted(mism, key=lambda i: len(cases[i]["ops"])):
+        for i in sorted(mism, key=lambda i: (6 not in mism[i], len(cases[i]["ops"]))):
             chk.violation("correspondence between the routing model and the code broke (%s); the property is not shown on this tree"
                           % "; ".join(ERR[e] for e in mism[i]),
                           dict(slim(cases[i]), model_disagreements=[ERR[e] for e in mism[i]], correspondence="Proxy/ProxyCases.v check_case"),
@@ -165,6 +166,8 @@ def run(chk, only=None):
         if c["oracle"] and pred not in preds:
             chk.violation("C16 fails on the real code (%s): %s" % (pred, c["oracle"][0][:300]), slim(c), True)
             break
+        if c["oracle"] and only is not None:
+            chk.known("pred=%s (replayed program inside a listed finding's predicate) :: %s" % (pred, c["oracle"][0][:200]))
     nontriv = [c for c in clean if any(o["gtx"] for o in c["ops"]) or len(c["ops"]) >= 3]
     dist = {}
     for c in cases:
